@@ -108,8 +108,9 @@ def degenerate_enums_only(doc):
 
 def def_key(rng, k):
     """Key of a caller-supplied definition: the caller's choice, any string (a reference to it is a JSON
-    pointer, in which `/` and `~` are escaped)."""
-    return rng.choice([f"def{k}", f"def{k}", f"path/to{k}", f"til~de{k}", f"~1odd{k}", f"with space{k}", f"é{k}"])
+    pointer, in which `/` and `~` are escaped, written as a URI fragment, in which `%` is)."""
+    return rng.choice([f"def{k}", f"def{k}", f"path/to{k}", f"til~de{k}", f"~1odd{k}", f"with space{k}", f"é{k}",
+                       f"a%25b{k}", f"50%2Foff{k}", f"%7E{k}%"])
 
 
 def check_tree(ctx, sut, element, extra_elements, definitions, model_schema, values, case, f08, f09):
